@@ -2,7 +2,11 @@
 LabelScheduleSource over real brokers and task registries.  Nothing of /repo is re-implemented here."""
 import asyncio
 import datetime as dt
+import inspect
 import json
+import types
+
+import vloop
 
 from taskiq.abc.broker import AsyncBroker
 from taskiq.abc.schedule_source import ScheduleSource
@@ -74,10 +78,11 @@ def prepared(labels):
 
 
 class RecBroker(AsyncBroker):
-    def __init__(self, log, kick_ok=True):
+    def __init__(self, log, kick_ok=True, kick_d=0):
         super().__init__()
         self.log = log
         self.kick_ok = kick_ok
+        self.kick_d = kick_d
 
     async def kick(self, message):
         m = self.formatter.loads(message.message)
@@ -85,7 +90,7 @@ class RecBroker(AsyncBroker):
                                       labels={k: [m.labels[k], m.labels_types.get(k) if m.labels_types else None]
                                               for k in m.labels},
                                       bm_task_name=message.task_name, bm_labels=canon(message.labels))])
-        await asyncio.sleep(0)
+        await asyncio.sleep(self.kick_d / 1e6)
         if not self.kick_ok:
             raise RuntimeError("injected kick failure")
 
@@ -97,40 +102,176 @@ class Boom(Exception):
     pass
 
 
-def make_source(log, pre, pre_async, post_ok, post_async):
-    def pre_body(task):
-        log.append(["pre", task.schedule_id])
-        if pre == "cancel":
-            raise ScheduledTaskCancelledError
-        if pre == "raise":
-            raise Boom("pre")
+class Cancelled2(ScheduledTaskCancelledError):
+    """a source's own subclass of the cancellation error"""
 
-    def post_body(task):
-        log.append(["post", task.schedule_id])
-        if not post_ok:
-            raise Boom("post")
+
+# ------------------------------------------------------------------ what a callback hands back
+# sync = plain def doing the work, async = `async def`; every other style is a plain def that RETURNS an awaitable
+# which is NOT a coroutine object (on_ready has to wait for it all the same): task = asyncio.ensure_future(coroutine),
+# future = a bare asyncio.Future resolved when work done elsewhere finishes (the shape of loop.run_in_executor /
+# wrap_future / a client library's future), done_future = a Future that already holds the outcome, awaitobj = object
+# with __await__ (the work runs only when awaited), gencoro = generator-based coroutine (types.coroutine), gather /
+# shield = asyncio.gather(...) / asyncio.shield(...) over the work, executor = loop.run_in_executor(None, blocking work)
+CO_STYLES = ("sync", "async")
+AW_STYLES = ("task", "future", "done_future", "awaitobj", "gencoro", "gather", "shield", "executor")
+
+
+def style_of(c, kind):
+    return c.get(kind + "_style") or ("async" if c.get(kind + "_async") else "sync")
+
+
+def deliver(style, work, started):
+    """`work()` gives a fresh coroutine doing the callback's work; hand it back in the given (non-sync) style.
+    Everything that runs without being awaited is put on `started` so the driver can let it finish afterwards."""
+    loop = asyncio.get_running_loop()
+    if style == "async":
+        return work()
+    if style == "task":
+        t = asyncio.ensure_future(work())
+        started.append(t)
+        return t
+    if style == "future":
+        fut = loop.create_future()
+        t = asyncio.ensure_future(work())
+
+        def fin(t):
+            if fut.done():
+                return
+            if t.cancelled():
+                fut.cancel()
+            elif t.exception() is not None:
+                fut.set_exception(t.exception())
+            else:
+                fut.set_result(t.result())
+
+        t.add_done_callback(fin)
+        started.append(fut)
+        return fut
+    if style == "awaitobj":
+        class Later:
+            def __await__(self):
+                return work().__await__()
+
+        return Later()
+    if style == "gencoro":
+        @types.coroutine
+        def gen():
+            return (yield from work().__await__())
+
+        return gen()
+    if style == "gather":
+        async def sibling():
+            await asyncio.sleep(0)
+
+        g = asyncio.gather(sibling(), work())
+        started.append(g)
+
+        return g
+    if style == "shield":
+        f = asyncio.shield(work())
+        started.append(f)
+        return f
+    raise AssertionError("scenario: unknown callback style %r" % (style,))
+
+
+class CallableObj:
+    def __init__(self, fn):
+        self.fn = fn
+
+    def __call__(self, task):
+        return self.fn(task)
+
+
+def make_cb(log, started, kind, style, d, when, outcome, ret, cancel_cls="base"):
+    """one callback: logs [kind.begin, sid] when called and [kind, sid] at the instant its work COMPLETES (d virtual
+    microseconds later for the deferred styles), then raises per `outcome` (ok / cancel / raise) or gives `ret`"""
+    def finish(task):
+        log.append([kind, task.schedule_id])
+        if outcome == "cancel":
+            raise (Cancelled2 if cancel_cls == "sub" else ScheduledTaskCancelledError)
+        if outcome == "raise":
+            raise Boom(kind)
+        return ret
+
+    if style == "async":
+        async def cb(task):
+            log.append([kind + ".begin", task.schedule_id])
+            await asyncio.sleep(d / 1e6)
+            return finish(task)
+
+        return cb
+
+    def cb(task):
+        log.append([kind + ".begin", task.schedule_id])
+        if style == "sync" or (when == "call" and outcome != "ok"):
+            return finish(task)                    # the plain def itself does the work / refuses before deferring
+        if style == "done_future":
+            fut = asyncio.get_running_loop().create_future()
+            try:
+                fut.set_result(finish(task))
+            except Exception as e:  # noqa: BLE001 - handed over through the future
+                fut.set_exception(e)
+            started.append(fut)
+            return fut
+        if style == "executor":
+            fut = asyncio.get_running_loop().run_in_executor(None, finish, task)
+            started.append(fut)
+            return fut
+
+        async def work():
+            if d:
+                await asyncio.sleep(d / 1e6)
+            return finish(task)
+
+        return deliver(style, work, started)
+
+    return cb
+
+
+def make_source(log, started, c):
+    pre = make_cb(log, started, "pre", style_of(c, "pre"), c.get("pre_d", 0), c.get("pre_when", "await"), c["pre"],
+                  c.get("pre_ret"), c.get("cancel_cls", "base"))
+    post = make_cb(log, started, "post", style_of(c, "post"), c.get("post_d", 0), c.get("post_when", "await"),
+                   "ok" if c["post_ok"] else "raise", c.get("post_ret"))
+    bind = c.get("bind", "class")
 
     class Src(ScheduleSource):
         async def get_schedules(self):
             return []
 
-        if pre_async:
-            async def pre_send(self, task):
-                await asyncio.sleep(0)
-                pre_body(task)
-        else:
-            def pre_send(self, task):
-                pre_body(task)
+        if bind == "class":
+            if style_of(c, "pre") == "async":
+                async def pre_send(self, task):
+                    return await pre(task)
+            else:
+                def pre_send(self, task):
+                    return pre(task)
 
-        if post_async:
-            async def post_send(self, task):
-                await asyncio.sleep(0)
-                post_body(task)
-        else:
-            def post_send(self, task):
-                post_body(task)
+            if style_of(c, "post") == "async":
+                async def post_send(self, task):
+                    return await post(task)
+            else:
+                def post_send(self, task):
+                    return post(task)
 
-    return Src()
+    def late_bind(src):
+        """callbacks bound after the scheduler was built: instance attributes (functions / callable objects)"""
+        if bind == "instance":
+            src.pre_send, src.post_send = pre, post
+        elif bind == "callable":
+            src.pre_send, src.post_send = CallableObj(pre), CallableObj(post)
+
+    return Src(), late_bind
+
+
+async def drain(started):
+    """after on_ready has returned: let whatever was started and not waited for run to its end (so a send / post_send
+    that happens too late is observed, after the `ret` mark)"""
+    if started:
+        await asyncio.gather(*started, return_exceptions=True)
+    for _ in range(3):
+        await asyncio.sleep(0)
 
 
 async def guarded(coro):
@@ -148,10 +289,10 @@ async def guarded(coro):
 
 
 def run_fire(c):
-    log = []
+    log, started = [], []
     AsyncBroker.global_task_registry.clear()
-    b = RecBroker(log, c["kick_ok"])
-    src = make_source(log, c["pre"], c["pre_async"], c["post_ok"], c["post_async"])
+    b = RecBroker(log, c["kick_ok"], c.get("kick_d", 0))
+    src, late_bind = make_source(log, started, c)
     p = c["payload"]
     kw = dict(task_name=p["task"], labels=dec(p["labels"]), args=dec(p["args"]), kwargs=dec(p["kwargs"]),
               schedule_id=c["sid"])
@@ -161,7 +302,17 @@ def run_fire(c):
         kw["time"] = dec_time(p["time"])
     st = ScheduledTask(**kw)
     expect = prepared(st.labels)
-    res = asyncio.run(guarded(TaskiqScheduler(b, [src]).on_ready(src, st)))
+
+    async def main(loop):
+        loop.set_exception_handler(lambda *_: None)      # a future nobody waited for is an observation, not noise
+        sch = TaskiqScheduler(b, [src] if c.get("registered", True) else [])
+        late_bind(src)
+        res = await guarded(sch.on_ready(src, st))
+        log.append(["ret"])                              # on_ready has returned; whatever follows happened too late
+        await drain(started)
+        return res
+
+    res = vloop.run(main)
     return dict(effects=log, result=res, expect_labels=expect, sched_args=canon(st.args), sched_kwargs=canon(st.kwargs))
 
 
@@ -202,16 +353,44 @@ def run_label(c):
     src = LabelScheduleSource(b)
     sch = TaskiqScheduler(b, [src])
     real_pre, real_post = src.pre_send, src.post_send   # the source's own methods, observed through instance attributes
+    started = []
+    cb_style = c.get("cb_style", "sync")     # how a wrapping source hands the real callback's work back (see deliver)
 
-    def pre_send(task):
-        log.append(["pre", task.schedule_id])
-        return real_pre(task)
+    def wrap(kind, real):
+        def done(task):
+            log.append([kind, task.schedule_id])
 
-    def post_send(task):
-        log.append(["post", task.schedule_id])
-        return real_post(task)
+        async def work(task):
+            try:
+                r = real(task)
+                if inspect.isawaitable(r):
+                    r = await r
+                return r
+            finally:
+                done(task)
 
-    src.pre_send, src.post_send = pre_send, post_send
+        def cb(task):
+            log.append([kind + ".begin", task.schedule_id])
+            if cb_style == "sync":
+                try:
+                    r = real(task)
+                except BaseException:
+                    done(task)
+                    raise
+                if inspect.isawaitable(r):
+                    async def rest():
+                        try:
+                            return await r
+                        finally:
+                            done(task)
+                    return rest()
+                done(task)
+                return r
+            return deliver(cb_style, lambda: work(task), started)
+
+        return cb
+
+    src.pre_send, src.post_send = wrap("pre", real_pre), wrap("post", real_post)
 
     def view():
         out = []
@@ -246,11 +425,19 @@ def run_label(c):
                 del log[:]
                 expect = prepared(s.labels)
                 before = sview(s)
+                del started[:]
                 res = await guarded(sch.on_ready(src, s))
-                obs.append(dict(op="fire", sched=before, expect_labels=expect, effects=list(log), result=res, view=view()))
+                log.append(["ret"])
+                v = view()                   # the registry as on_ready left it
+                await drain(started)
+                obs.append(dict(op="fire", sched=before, expect_labels=expect, effects=list(log), result=res, view=v))
         return obs
 
-    return dict(obs=asyncio.run(main()))
+    async def main_(loop):
+        loop.set_exception_handler(lambda *_: None)
+        return await main()
+
+    return dict(obs=vloop.run(main_))
 
 
 def run_case(c, opts):
